@@ -151,6 +151,9 @@ func audioMsg(a string, au []byte) []byte {
 	if a == "g711a" {
 		return append([]byte{0x72}, au...)
 	}
+	if a == "opus" {
+		return append([]byte{0xdf}, au...)
+	}
 	return append([]byte{0xaf, 1}, au...)
 }
 
@@ -389,7 +392,7 @@ func run(sc scenario) (res []result, compared int, infra error) {
 			return nil, 0, err
 		}
 	}
-	if sc.Prolog && sc.C.Audio == "g711a" {
+	if sc.Prolog && (sc.C.Audio == "g711a" || sc.C.Audio == "opus") {
 		// G.711 has no sequence header: the stream can be described once the first audio frame has been seen
 		if err := x.event("Af"); err != nil {
 			return nil, 0, err
@@ -615,7 +618,7 @@ func (x *runCtx) checkTs(who string, b []byte, joinV, joinA int) {
 			}
 		}
 	}
-	if a == "aac" || a == "aac48" {
+	if a == "aac" || a == "aac48" || a == "opus" {
 		pes, err := ref.DemuxPes(pk, 0x101, -1)
 		if err != nil {
 			x.add(who+"/audio-pes", "%v", err)
@@ -629,6 +632,10 @@ func (x *runCtx) checkTs(who string, b []byte, joinV, joinA int) {
 		}
 		var got []gotAu
 		for _, p := range pes {
+			if a == "opus" { // one frame per PES, as published
+				got = append(got, gotAu{p.Payload, p.PTS, true, nil})
+				continue
+			}
 			frames, hdrs, err := ref.SplitAdts(p.Payload)
 			if err != nil {
 				x.add(who+"/adts", "%v", err)
@@ -664,6 +671,18 @@ func (x *runCtx) checkTs(who string, b []byte, joinV, joinA int) {
 				if !bytes.Equal(g.b, f.au) {
 					x.add(who+"/audio-frames", "audio frame %d in TS differs from published frame %d (%d vs %d bytes)", k, start+k, len(g.b), len(f.au))
 					break
+				}
+				if a == "opus" {
+					cd := int64(g.pts) - int64(f.dts)*90
+					if k == 0 {
+						c0 = cd
+					}
+					if cd != c0 {
+						x.add(who+"/audio-timestamp", "Opus PES of published frame %d (ts %d ms) has PTS %d; track offset of the first PES is %d", start+k, f.dts, g.pts, c0)
+						break
+					}
+					x.compared++
+					continue
 				}
 				// ADTS header consistent with the AudioSpecificConfig
 				c := f.asc
@@ -807,7 +826,7 @@ func (x *runCtx) checkRtsp() {
 			}
 		} else {
 			var got []ref.Unit
-			if a == "g711a" {
+			if a == "g711a" || a == "opus" {
 				for _, r := range pkts {
 					got = append(got, ref.Unit{Ts: r.Ts, Data: r.Payload})
 				}
@@ -893,7 +912,7 @@ func main() {
 	if !r.Quick() {
 		maxLen = 4
 	}
-	cs := []codecs{{"avc", "aac"}, {"hevc", "aac48"}, {"avc", ""}, {"", "aac"}, {"avc", "g711a"}}
+	cs := []codecs{{"avc", "aac"}, {"hevc", "aac48"}, {"avc", ""}, {"", "aac"}, {"avc", "g711a"}, {"avc", "opus"}}
 	var cases []scenario
 	for _, c := range cs {
 		sh := shapesFor(c)
@@ -923,7 +942,7 @@ func main() {
 	// size sweeps: every residue of the TS packet payload size for video frames and audio PES totals
 	for _, c := range cs {
 		for _, sh := range []string{"Pall", "Aall"} {
-			if (sh == "Pall" && c.Video == "") || (sh == "Aall" && (c.Audio == "" || c.Audio == "g711a")) {
+			if (sh == "Pall" && c.Video == "") || (sh == "Aall" && (c.Audio == "" || c.Audio == "g711a" || c.Audio == "opus")) {
 				continue
 			}
 			for _, j := range []int{0, 1} {
